@@ -169,13 +169,20 @@ def exact_table(cap: Capture, job, rows: list, pareto_cols: list):
         objs.append((o, X.compile_eval(to_sympy(o.formula, symbols), idx)))
     _syms, sdf, pmu, usage, _t2m, _act = cap.model
     allf = {**{k: v for k, v in sdf.items()}, **pmu, **usage}
-    fns = []
-    for c in pareto_cols:
+    def col_fn(c):
         if c == "Total<SEP>energy":
             f = to_sympy(allf["Total<SEP>leak_energy"], symbols) + to_sympy(allf["Total<SEP>dynamic_energy"], symbols)
         else:
             f = to_sympy(allf[c], symbols)
-        fns.append(X.compile_eval(sympy.sympify(f), idx))
+        return X.compile_eval(sympy.sympify(f), idx)
+
+    fns = []
+    for c in pareto_cols:
+        if isinstance(c, (list, tuple)):      # a group of columns the pipeline collapses into their maximum
+            gs = [col_fn(x) for x in c]
+            fns.append(lambda row, gs=gs: max(g(row) for g in gs))
+        else:
+            fns.append(col_fn(c))
     out = []
     eps = Fraction(1, 10 ** 6)
     for row in rows:
@@ -198,6 +205,30 @@ def exact_table(cap: Capture, job, rows: list, pareto_cols: list):
             valid = False
         out.append((valid, border, [fn(row) for fn in fns] if valid else None))
     return out
+
+
+def pipeline_pareto_columns(df_columns, job) -> list:
+    """The columns the pipeline's Pareto filter sees for a template without fused loops
+    (make_pmappings_from_templates → PmappingDataframe(next_shared_loop_index=-1) → makepareto):
+    every `Total<SEP>…` column, and per resource ONE reservation column = max(deepest right reservation, the level-0 one)
+    (free_to_loop_index(-1) drops the shallower running totals); reservations of memories tracked for pmappings only are dropped."""
+    from accelforge.mapper.FFM._pareto_df.df_convention import col2reservation, is_objective_col
+
+    cols, per_res = [], {}
+    for c in df_columns:
+        r = col2reservation(c)
+        if r is not None:
+            if r.name in (job.memories_track_pmappings_only or []):
+                continue
+            per_res.setdefault(r.name, {})[r.nloops] = c
+        elif is_objective_col(c):
+            cols.append(c)
+    for name in sorted(per_res):
+        lv = per_res[name]
+        deep = [l for l in lv if l >= 1]
+        keep = ([lv[max(deep)]] if deep else []) + ([lv[0]] if 0 in lv else [])
+        cols.append(keep)
+    return cols
 
 
 def front(vectors: list) -> list:
